@@ -6,10 +6,14 @@ record("_FunctionInformationCollector", fields={"start": "Int", "end": "Int", "c
 contract("_FunctionInformationCollector._handle_conditional_context", source=M + "_FunctionInformationCollector._handle_conditional_context",
          params={"self": "_FunctionInformationCollector", "node": "Node"}, returns="Seq[NoneT]", modifies=["self.conditional", "self.post_conditional"], raises={},
          ensures=["self.conditional == old(self.conditional)", "self.post_conditional == old(self.post_conditional)", "len(result) == 1"],
+         at_yield=[  # inside the construct: conditional once a conditional construct starts within the region, post-conditional once one starts after it
+             "self.conditional == (old(self.conditional) or (self.start <= node.lineno and node.lineno <= self.end))",
+             "self.post_conditional == (old(self.post_conditional) or self.end < node.lineno)"],
          note="leaving a conditional construct restores the context of the enclosing one (nested conditionals)")
 contract("_FunctionInformationCollector._handle_loop_context", source=M + "_FunctionInformationCollector._handle_loop_context",
          params={"self": "_FunctionInformationCollector", "node": "Node"}, returns="Seq[NoneT]", modifies=["self.loop_depth"], raises={},
          ensures=["self.loop_depth == old(self.loop_depth)", "len(result) == 1"],
+         at_yield=["self.loop_depth == old(self.loop_depth) + ite(node.lineno < self.start, 1, 0)"],
          note="the loop depth after a loop is the loop depth before it, whether or not the loop starts before the region")
 
 from bounded import c03_extract as _b3
